@@ -3,14 +3,25 @@
 
     M chain <op>*                 → the model's observation (Wm.Chain.exec)
     P chain <op>* ## <obs>        → the property monitor on the implementation's observation
+    M cchain <op>* @@ <obs>       → programs with a block of overlapping calls (C token): the recorded observation is part
+                                    of the request; `consistent` iff SOME linearisation of the block makes the model
+                                    produce exactly that observation, else `inconsistent`
+    P cchain <op>* @@ <obs> ## …  → the property monitor on the recorded observation
 
   op tokens:  R<ids>  router.AddMiddleware(ids...)        H<h>:<ids>  handler h .AddMiddleware(ids...)
               A<h>p | A<h>n  AddHandler / AddNoPublisherHandler of handler number h, named "h<h>", or
               A<h>p=<nameHex> with an explicit name (hex of its UTF-8 bytes, `-` = the empty name)
+              A<h>p@<g> (also with =<name>): the handler gets the application-decorated subscriber object number g – one
+              MessageTransformSubscriberDecorator-wrapped subscriber built by the application, shared by all handlers with that g
               P<ids>  AddPublisherDecorators(ids...)      S<ids>      AddSubscriberDecorators(ids...)
+              G<item>+<item>…  AddPlugin: a RouterPlugin that, when Run executes it, registers item ∈ R<ids> | P<ids> | S<ids>
+              C<gor>|<gor>…    overlapping calls from several goroutines, gor = `+`-joined H<h>:<ids> (each goroutine's
+                               Handler.AddMiddleware calls in its order)
               RUN     Run (first) / RunHandlers (later), then one message through every started handler
   ids = comma separated numbers.  Observation: one block per RUN, blocks separated by spaces, `none` without RUN;
-  block = `-` or `;`-separated entries `h<h>=<ev>.<ev>…` with ev ∈ s<i>c | s<i>n | e<i> | h | l<i> | p<i> | P.
+  block = `-` or `;`-separated entries `h<h>=<ev>.<ev>…` with ev ∈ a<g> | s<i>c | s<i>n | e<i> | h | l<i> | p<i> | P
+  (a<g>: the application's transform of shared subscriber g; s<i>w / hx: the decorator / the handler function saw
+  ANOTHER handler's context values on the message).
 -/
 import WmModel.Basic
 import WmModel.Chain
@@ -39,39 +50,83 @@ def nameOfTok (cs : List Char) : Option String :=
 /-- the default name of handler number `n` is "h<n>" -/
 def hname (n : Nat) : String := hexEnc ("h" ++ toString n).toUTF8.toList
 
-/-- one token; `names` = handler number ↦ name, filled by the A tokens (`A<h>p`, `A<h>n`, optionally `=<nameHex>`) -/
-def opOf (names : List (Nat × String)) (tok : String) : Option (Op × List (Nat × String)) :=
-  if tok == "RUN" then some (.run, names) else
-  match tok.toList with
-  | 'R' :: rest => (idsOf rest).map fun ids => (.routerMw ids, names)
-  | 'P' :: rest => (idsOf rest).map fun ids => (.pubDec ids, names)
-  | 'S' :: rest => (idsOf rest).map fun ids => (.subDec ids, names)
+/-- program element: a sequential operation, or a block of overlapping `Handler.AddMiddleware` calls
+    (one list per goroutine, its calls in its own order) -/
+inductive DOp | seq (o : Op) | conc (gs : List (List Op))
+
+def DOp.flat : DOp → List Op
+  | .seq o => [o]
+  | .conc gs => gs.flatten
+
+def popOf (cs : List Char) : Option POp :=
+  match cs with
+  | 'R' :: rest => (idsOf rest).map .routerMw
+  | 'P' :: rest => (idsOf rest).map .pubDec
+  | 'S' :: rest => (idsOf rest).map .subDec
+  | _ => none
+
+def hmwOf (names : List (Nat × String)) (cs : List Char) : Option Op :=
+  match cs with
   | 'H' :: rest =>
     match splitOnChar ':' rest with
     | [h, ids] => do
       let h ← natOf h
       let ids ← idsOf ids
       let (_, name) ← names.find? (·.1 == h)
-      pure (.handlerMw name ids, names)
+      pure (.handlerMw name ids)
     | _ => none
+  | _ => none
+
+/-- one token; `names` = handler number ↦ name, filled by the A tokens -/
+def opOf (names : List (Nat × String)) (tok : String) : Option (DOp × List (Nat × String)) :=
+  if tok == "RUN" then some (.seq .run, names) else
+  match tok.toList with
+  | 'R' :: rest => (idsOf rest).map fun ids => (.seq (.routerMw ids), names)
+  | 'P' :: rest => (idsOf rest).map fun ids => (.seq (.pubDec ids), names)
+  | 'S' :: rest => (idsOf rest).map fun ids => (.seq (.subDec ids), names)
+  | 'G' :: rest => ((splitOnChar '+' rest).mapM popOf).map fun ps => (.seq (.plugin ps), names)
+  | 'C' :: rest =>
+    ((splitOnChar '|' rest).mapM fun g => (splitOnChar '+' g).mapM (hmwOf names)).map fun gs => (.conc gs, names)
+  | 'H' :: rest => (hmwOf names ('H' :: rest)).map fun o => (.seq o, names)
   | 'A' :: rest =>
     let (spec, name?) := match splitOnChar '=' rest with
       | [a, n] => (a, some n)
       | _ => (rest, none)
+    let (spec, app?) := match splitOnChar '@' spec with
+      | [a, g] => (a, some g)
+      | _ => (spec, none)
     match spec.reverse with
     | k :: h => do
       let hasPub ← if k == 'p' then some true else if k == 'n' then some false else none
       let h ← natOf h.reverse
       let name ← match name? with | some n => nameOfTok n | none => some (hname h)
+      let app ← match app? with | some g => (natOf g).map some | none => some none
       if names.any (·.1 == h) then none else
-      pure (.addHandler name hasPub, names ++ [(h, name)])
+      pure (.seq (.addHandler name hasPub app), names ++ [(h, name)])
     | _ => none
   | _ => none
 
-def opsOf (toks : List String) : Option (List Op × List (Nat × String)) :=
-  toks.foldlM (fun (acc : List Op × List (Nat × String)) t => do
+def opsOf (toks : List String) : Option (List DOp × List (Nat × String)) :=
+  toks.foldlM (fun (acc : List DOp × List (Nat × String)) t => do
     let (o, names) ← opOf acc.2 t
     pure (acc.1 ++ [o], names)) ([], [])
+
+/-- all orders in which the lock can serialise the goroutines' calls (each goroutine's own order kept) -/
+def interleave : Nat → List (List Op) → List (List Op)
+  | 0, _ => [[]]
+  | f + 1, gs =>
+    if gs.all List.isEmpty then [[]] else
+    (List.range gs.length).flatMap fun i =>
+      match gs[i]? with
+      | some (x :: rest) => (interleave f (gs.set i rest)).map (x :: ·)
+      | _ => []
+
+def linearise : List DOp → List (List Op)
+  | [] => [[]]
+  | .seq o :: r => (linearise r).map (o :: ·)
+  | .conc gs :: r =>
+    let tails := linearise r
+    (interleave (gs.flatten.length + 1) gs).flatMap fun il => tails.map (il ++ ·)
 
 /-- observation key of a handler: `h<number>` -/
 def keyOf (names : List (Nat × String)) (name : String) : String :=
@@ -80,6 +135,7 @@ def keyOf (names : List (Nat × String)) (name : String) : String :=
   | none => "h?"
 
 def evStr : Ev → String
+  | .app g => "a" ++ toString g
   | .sub i c => "s" ++ toString i ++ (if c then "c" else "n")
   | .enter i => "e" ++ toString i
   | .handler => "h"
@@ -94,24 +150,39 @@ def blockStr (names : List (Nat × String)) (b : List (String × List Ev)) : Str
 def obsStr (names : List (Nat × String)) (obs : List (List (String × List Ev))) : String :=
   if obs.isEmpty then "none" else " ".intercalate (obs.map (blockStr names))
 
+def runModel (names : List (Nat × String)) (ops : List Op) : Option String :=
+  (exec {} ops).map fun s => obsStr names s.obs
+
 def model (toks : List String) : String :=
   match opsOf toks with
   | none => "bad-op"
-  | some (ops, names) =>
-    match exec {} ops with
-    | none => "bad-op"
-    | some s => obsStr names s.obs
+  | some (dops, names) =>
+    match linearise dops with
+    | [ops] => (runModel names ops).getD "bad-op"
+    | _ => "bad-op"      -- overlapping calls: the model can only check (cchain)
+
+/-- programs with overlapping calls: is the recorded observation what the model does under SOME serialisation? -/
+def modelCheck (toks : List String) (recorded : String) : String :=
+  match opsOf toks with
+  | none => "bad-op"
+  | some (dops, names) =>
+    let lins := linearise dops
+    if lins.length > 50000 then "bad-op"
+    else if lins.any (fun ops => (exec {} ops).isNone) then "bad-op"
+    else if lins.any (fun ops => runModel names ops == some recorded) then "consistent" else "inconsistent"
 
 /-! ### the property, evaluated on an observation – written without `Wm.Chain.wrap`/`exec` -/
 
 /-- observed event token -/
-inductive Tok | s (i : Nat) | e (i : Nat) | h | l (i : Nat) | p (i : Nat) | P
+inductive Tok | a (g : Nat) | s (i : Nat) | e (i : Nat) | h | l (i : Nat) | p (i : Nat) | P | foreignCtx
   deriving DecidableEq
 
 def tokOf (cs : List Char) : Option Tok :=
   match cs with
   | ['h'] => some .h
+  | ['h', 'x'] => some .foreignCtx
   | ['P'] => some .P
+  | 'a' :: r => (natOf r).map .a
   | 'e' :: r => (natOf r).map .e
   | 'l' :: r => (natOf r).map .l
   | 'p' :: r => (natOf r).map .p
@@ -119,19 +190,32 @@ def tokOf (cs : List Char) : Option Tok :=
     match r.reverse with
     | 'c' :: d => (natOf d.reverse).map .s
     | 'n' :: d => (natOf d.reverse).map .s
+    | 'w' :: d => (natOf d.reverse).map fun _ => .foreignCtx
     | _ => none
   | _ => none
 
 def sameMultiset (a b : List Nat) : Bool :=
   a.length == b.length && a.all (fun x => a.count x == b.count x)
 
+/-- `sub` is a subsequence of `l` -/
+def isSubseq : List Nat → List Nat → Bool
+  | [], _ => true
+  | _ :: _, [] => false
+  | x :: xs, y :: ys => if x == y then isSubseq xs ys else isSubseq (x :: xs) ys
+
 /-- the statement of C09 for one handler's one-message trace.
-    `own`: ids registered router-level or for this handler before it started, in registration order;
-    `foreign`: ids registered for other handlers (anywhere in the program);
-    `sd`/`pd`: decorator ids added before it started, in the order added. -/
-def judgeTrace (own foreign sd pd : List Nat) (hasPub : Bool) (t : List Tok) : String :=
-  let ss := t.takeWhile (fun x => match x with | .s _ => true | _ => false)
-  let r1 := t.drop ss.length
+    registrations that apply to the handler (router-level or its own, made before it started): `before` in order, then
+    `groups` – what overlapping callers registered, one list per caller, each in the caller's order, order between
+    callers free – then `after` in order;  `foreign`: ids registered for other handlers (anywhere in the program);
+    `sd`/`pd`: decorator ids added before it started, in the order added; `app`: the application's own subscriber
+    transform, if the handler was given a pre-decorated subscriber. -/
+def judgeTrace (before : List Nat) (groups : List (List Nat)) (after foreign sd pd : List Nat) (hasPub : Bool)
+    (app : Option Nat) (t : List Tok) : String :=
+  if t.contains .foreignCtx then "violated:foreign_context" else
+  let as := t.takeWhile (fun x => match x with | .a _ => true | _ => false)
+  let r0 := t.drop as.length
+  let ss := r0.takeWhile (fun x => match x with | .s _ => true | _ => false)
+  let r1 := r0.drop ss.length
   let es := r1.takeWhile (fun x => match x with | .e _ => true | _ => false)
   let r2 := r1.drop es.length
   match r2 with
@@ -140,14 +224,19 @@ def judgeTrace (own foreign sd pd : List Nat) (hasPub : Bool) (t : List Tok) : S
     let r4 := r3.drop ls.length
     let ps := r4.takeWhile (fun x => match x with | .p _ => true | _ => false)
     let r5 := r4.drop ps.length
+    let aIds := as.filterMap (fun x => match x with | .a i => some i | _ => none)
     let sIds := ss.filterMap (fun x => match x with | .s i => some i | _ => none)
     let eIds := es.filterMap (fun x => match x with | .e i => some i | _ => none)
     let lIds := ls.filterMap (fun x => match x with | .l i => some i | _ => none)
     let pIds := ps.filterMap (fun x => match x with | .p i => some i | _ => none)
+    let own := before ++ groups.flatten ++ after
+    let mid := (eIds.drop before.length).take (eIds.length - before.length - after.length)
     if eIds.any (fun i => foreign.contains i && !own.contains i) then "violated:foreign_middleware"
     else if !sameMultiset eIds own then "violated:exactly_router_level_plus_own"
-    else if eIds != own then "violated:nesting_order"
+    else if eIds.take before.length != before || eIds.drop (eIds.length - after.length) != after then "violated:nesting_order"
+    else if groups.any (fun g => !isSubseq g mid) then "violated:nesting_order"
     else if lIds != eIds.reverse then "violated:nesting_order"
+    else if aIds != app.toList then "violated:sub_decorator_order"
     else if sIds != sd then "violated:sub_decorator_order"
     else if hasPub then
       (if r5 != [.P] then "violated:shape" else if pIds != pd then "violated:pub_decorator_order" else "ok")
@@ -164,28 +253,38 @@ def parseEntry (cs : List Char) : Option (String × List Tok) :=
 def parseBlock (b : String) : Option (List (String × List Tok)) :=
   if b == "-" then some [] else (splitOnChar ';' b.toList).mapM parseEntry
 
-def monitor (names : List (Nat × String)) (ops : List Op) (blocks : List String) : String := Id.run do
+def monitor (names : List (Nat × String)) (dops : List DOp) (blocks : List String) : String := Id.run do
+  let ops := dops.flatMap DOp.flat
   -- well-formedness of the program (same conditions as the API: a handler exists before it gets middleware, names unique)
   let mut known : List String := []
   for o in ops do
     match o with
-    | .addHandler h _ => if known.contains h then return "bad-op" else known := known ++ [h]
+    | .addHandler h _ _ => if known.contains h then return "bad-op" else known := known ++ [h]
     | .handlerMw h _ => if !known.contains h then return "bad-op"
     | _ => pure ()
   let nRuns := (ops.filter (· == .run)).length
   if blocks.length != nRuns then return "violated:shape"
   let allForeign (h : String) : List Nat :=
     ops.foldl (fun acc o => match o with | .handlerMw g ids => if g != h then acc ++ ids else acc | _ => acc) []
-  -- walk the program; `seen` = operations so far
-  let mut seen : List Op := []
-  let mut started : List (String × Bool × List Op) := []   -- handler, hasPub, operations that preceded its start
+  -- walk the program; `seen` = what has been registered so far, in order
+  let mut seen : List DOp := []
+  let mut pending : List POp := []      -- what the plugins added so far will register when Run executes them
+  let mut ran := false
+  let mut started : List (String × Bool × Option Nat × List DOp) := []   -- handler, hasPub, app, what preceded its start
   let mut rest := blocks
-  for o in ops do
-    if o == .run then
+  for d in dops do
+    match d with
+    | .seq (.plugin ps) => pending := pending ++ ps
+    | .seq .run =>
+      -- Run executes the plugins first (once; RunHandlers on the running router does not)
+      if !ran then
+        ran := true
+        seen := seen ++ pending.map fun q => DOp.seq (match q with
+          | .routerMw ids => Op.routerMw ids | .pubDec ids => Op.pubDec ids | .subDec ids => Op.subDec ids)
       -- every handler added so far and not yet started starts now, after all of `seen`
       for x in seen do
         match x with
-        | .addHandler h p => if !(started.any (·.1 == h)) then started := started ++ [(h, p, seen)]
+        | .seq (.addHandler h p a) => if !(started.any (·.1 == h)) then started := started ++ [(h, p, a, seen)]
         | _ => pure ()
       match rest with
       | [] => return "violated:shape"
@@ -198,34 +297,53 @@ def monitor (names : List (Nat × String)) (ops : List Op) (blocks : List String
           for (k, t) in entries do
             match started.find? (fun x => keyOf names x.1 == k) with
             | none => return "violated:shape"
-            | some (h, hasPub, pre) =>
-              let own := pre.foldl (fun acc x => match x with
-                | .routerMw ids => acc ++ ids
-                | .handlerMw g ids => if g == h then acc ++ ids else acc
-                | _ => acc) []
-              let sd := pre.foldl (fun acc x => match x with | .subDec ids => acc ++ ids | _ => acc) []
-              let pd := pre.foldl (fun acc x => match x with | .pubDec ids => acc ++ ids | _ => acc) []
-              let v := judgeTrace own (allForeign h) sd pd hasPub t
+            | some (h, hasPub, app, pre) =>
+              let idsFor (o : Op) : List Nat := match o with
+                | .routerMw ids => ids
+                | .handlerMw g ids => if g == h then ids else []
+                | _ => []
+              let (before, groups, after) := pre.foldl (fun (acc : List Nat × List (List Nat) × List Nat) x =>
+                match x with
+                | .seq o => if acc.2.1.isEmpty then (acc.1 ++ idsFor o, acc.2.1, acc.2.2) else (acc.1, acc.2.1, acc.2.2 ++ idsFor o)
+                | .conc gs => (acc.1, acc.2.1 ++ (gs.map fun g => g.flatMap idsFor), acc.2.2)) ([], [], [])
+              let flatPre := pre.flatMap DOp.flat
+              let sd := flatPre.foldl (fun acc x => match x with | .subDec ids => acc ++ ids | _ => acc) []
+              let pd := flatPre.foldl (fun acc x => match x with | .pubDec ids => acc ++ ids | _ => acc) []
+              let v := judgeTrace before groups after (allForeign h) sd pd hasPub app t
               if v != "ok" then return v
-    seen := seen ++ [o]
+    | _ => pure ()
+    match d with
+    | .seq (.plugin _) => pure ()
+    | _ => seen := seen ++ [d]
   return "ok"
+
+def special (obs : List String) : Option String :=
+  match obs with
+  | [o] =>
+    if o.startsWith "crash(" || o.startsWith "panic(" then some "violated:crash"
+    else if o.startsWith "timeout" || o.startsWith "run-returned" || o.startsWith "runhandlers-error" then some "violated:not_processed"
+    else none
+  | _ => none
+
+def judge (toks obs : List String) : String :=
+  if obs.isEmpty then "bad-op" else
+  match opsOf toks with
+  | none => "bad-op"
+  | some (dops, names) =>
+    if obs == ["none"] then monitor names dops []
+    else match special obs with
+      | some v => v
+      | none => monitor names dops obs
 
 def handle (line : String) : String :=
   match line.splitOn " " with
   | "M" :: "chain" :: toks => model toks
-  | "P" :: "chain" :: rest =>
-    let toks := rest.takeWhile (· != "##")
-    let obs := (rest.dropWhile (· != "##")).drop 1
-    if obs.isEmpty then "bad-op" else
-    match opsOf toks with
-    | none => "bad-op"
-    | some (ops, names) =>
-      if obs == ["none"] then monitor names ops []
-      else if let [o] := obs then
-        (if o.startsWith "crash(" || o.startsWith "panic(" then "violated:crash"
-         else if o.startsWith "timeout" || o.startsWith "run-returned" || o.startsWith "runhandlers-error" then "violated:not_processed"
-         else monitor names ops obs)
-      else monitor names ops obs
+  | "P" :: "chain" :: rest => judge (rest.takeWhile (· != "##")) ((rest.dropWhile (· != "##")).drop 1)
+  | "M" :: "cchain" :: rest =>
+    modelCheck (rest.takeWhile (· != "@@")) (" ".intercalate ((rest.dropWhile (· != "@@")).drop 1))
+  | "P" :: "cchain" :: rest =>
+    let body := rest.takeWhile (· != "##")
+    judge (body.takeWhile (· != "@@")) ((body.dropWhile (· != "@@")).drop 1)
   | _ => "bad-op"
 
 def main : IO Unit := driverMain handle
